@@ -61,7 +61,7 @@ def run(ctx):
     for i in range(n):
         utf8 = rnd.random() < 0.5
         st = rnd.choice(['oneline', 'consise', 'pretty'])
-        sep = rnd.choice([None, None, '\n', '\n---\n', ';\n'])
+        sep = rnd.choice([None, None, '\n', '\n---\n', ';\n', '\\n\n', ';\\t;\n', 'C:\\temp\\new,\n', '\\\\\n'])      # the separator is used as given: a backslash in it is a backslash
         vals = [gen_value(rnd, rnd.choice([0, 1, 2, 3]), astral=utf8) for _ in range(rnd.choice([1, 2, 3]))]
         cfg = lib.new_cfg(json_opts=(st, utf8), rowsep=sep)
         data = '\n'.join(dump(v) for v in vals).encode('utf8')
